@@ -662,6 +662,10 @@ type PassOpt struct {
 	Prune func(b *ssa.BasicBlock, succ int) bool
 	// PanicIsExit treats panic exits as escapes too (default: ignored).
 	PanicIsExit bool
+	// ExitAt treats an instruction as a function exit (e.g. an Unlock ending a critical section).
+	ExitAt func(in ssa.Instruction) bool
+	// StopAt treats entering a block as an exit (e.g. a loop header reached again).
+	StopAt func(b *ssa.BasicBlock) bool
 }
 
 // EscapePath searches a CFG path from just after instruction `from` to a function exit
@@ -680,6 +684,9 @@ func EscapePath(from ssa.Instruction, effect func(ssa.Instruction) bool, opt Pas
 				path = path[:len(path)-1]
 				return false
 			}
+			if opt.ExitAt != nil && opt.ExitAt(in) {
+				return true
+			}
 			switch in.(type) {
 			case *ssa.Return:
 				return true
@@ -694,6 +701,10 @@ func EscapePath(from ssa.Instruction, effect func(ssa.Instruction) bool, opt Pas
 		for i, s := range b.Succs {
 			if opt.Prune != nil && opt.Prune(b, i) {
 				continue
+			}
+			if opt.StopAt != nil && opt.StopAt(s) {
+				path = append(path, s)
+				return true
 			}
 			if seen[s] {
 				continue
